@@ -224,8 +224,8 @@ def ev_arrays(case, ctx):
 def ev_translate(case, ctx):
     P = points(ctx.seed)
     a = P[case["i"]]
-    if abs(a[1]) > 89.95:
-        return
+    # starts AT a pole are included: the bearing is then counted from the meridian of the given right ascension (the limit of
+    # the definition along that meridian), which is what the pixel-beam computation of an image centred on a pole relies on
     for r in R_SET:
         th = np.array(T_SET) + core.seed_shift(ctx.seed, 3, 15.0)
         ra_v, dec_v = at.translate(a[0], a[1], r, th)
